@@ -47,10 +47,16 @@ def decide(kind, p, g, req):
 def spec_check(kind, rows, lf, ops, obs, impl):
     out = []
     arrival = sorted([r for pt, r in rows if pt == 0], key=lambda r: r[0]) if lf else []   # stable
+    prev_p = None
     for i, (op, o) in enumerate(zip(ops, obs)):
         c = op[0]
         p = o[3]
         res = o[0]
+        # a management call that raises (priority mismatch in an update, ...) must have changed nothing
+        if c < 30 and res[0] != 0 and prev_p is not None and p != prev_p:
+            out.append((i, "a management call that raised has changed the stored rules"))
+            return out
+        prev_p = p
         ok = truthy(res) if res[0] == 0 else False
         # maintain the arrival sequence from the call and its reported result
         if c == 1 and op[1] == 0 and ok:
@@ -91,7 +97,9 @@ def exhaustive_cases(kind):
         return [pr, A(s), A("data1"), A("read"), e]
     rules = [r(1, "alice", mgmt.ALLOW), r(2, "alice", mgmt.DENY), r(2, "bob", mgmt.ALLOW), r(1, "alice", mgmt.DENY)]
     alpha = [(1, 0, x) for x in rules] + [(2, 0, [rules[1], rules[0]]), (2, 0, [rules[2], rules[3]]), (3, 0, rules[0]),
-             (6, rules[0], rules[3]), (6, rules[1], rules[2]), (7, [rules[0], rules[1]], [rules[3], rules[2]])]
+             (6, rules[0], rules[3]), (6, rules[1], rules[2]), (7, [rules[0], rules[1]], [rules[3], rules[2]]),
+             # a batch update whose first pair is admissible and whose second pair changes the priority (refused as a whole)
+             (7, [rules[0], rules[1]], [rules[3], r(1, "bob", mgmt.ALLOW)])]
     q = [(50, [A("alice"), A("data1"), A("read")]), (50, [A("bob"), A("data1"), A("read")])]
     for n in (1, 2, 3):
         for seq in itertools.product(alpha, repeat=n):
@@ -119,7 +127,7 @@ def run(chk, n, exh_len):
 def main():
     chk = Check(PROP)
     chk.rule = ("explicit-priority models (priorities from {1,2,2,5,10}, effect column allow/deny/other): exhaustive sequences "
-                "of <=2/3 calls from a 10-call alphabet (single/batch add, remove, update, batch update) with decisions "
+                "of <=2/3 calls from an 11-call alphabet (single/batch add, remove, update, batch update) with decisions "
                 "after each call, plus random histories on ACL- and RBAC-shaped priority models; non-trivial = at least "
                 "one mutating call; distinct by (kind, mutating calls)")
     chk.rule += ("; subject-priority stratum: every hierarchy on 3 names (512 digraphs incl. self-loops and cycles) x 2 "
